@@ -99,6 +99,9 @@ def run_scenario(sc, base, fast=True, mode='each', real_passes=None, on_test=Non
                 with open(fp, 'rb') as fh:
                     manifest[os.path.relpath(fp, cwd)] = fh.read()
         testlog.append((tuple(contents), rc, cwd, manifest))
+        for n in names:
+            if os.path.islink(os.path.join(cwd, n)):
+                o.links_in_test_dir.append((n, cwd))
         if sc.get('scribble'):
             # a test that litters its directory and clobbers the other test cases in it
             with open(os.path.join(cwd, 'junk.tmp'), 'w') as fh:
@@ -149,6 +152,7 @@ def run_scenario(sc, base, fast=True, mode='each', real_passes=None, on_test=Non
 
     o = Obs()
     o.scribble_leaks = []
+    o.links_in_test_dir = []
     o.work, o.tmpd, o.names = work, tmpd, names
     o.accepted = []
     o.passes = []
@@ -162,6 +166,21 @@ def run_scenario(sc, base, fast=True, mode='each', real_passes=None, on_test=Non
         prepare(work)
     o.before = snapshot_dir(work)
     o.cwd_before = os.getcwd()
+    orig_copyfile = shutil.copyfile
+    if sc.get('copy_fault') is not None:
+        # the k-th copy INTO a candidate / sanity folder writes part of the file and fails (ENOSPC on a full /tmp)
+        left = {'k': sc['copy_fault']}
+
+        def copyfile(src, dst, *a, **kw):
+            if os.path.abspath(str(dst)).startswith(tmpd + os.sep):
+                left['k'] -= 1
+                if left['k'] == 0:
+                    with open(src, 'rb') as fi, open(dst, 'wb') as fo:
+                        fo.write(fi.read()[:1])
+                    raise OSError(28, 'scripted: No space left on device')
+            return orig_copyfile(src, dst, *a, **kw)
+
+        shutil.copyfile = copyfile
     try:
         with shim.installed(sc.get('sched', []), fast_test if fast else None, quiet_logging=quiet_logging) as st:
             if on_test:
@@ -287,6 +306,7 @@ def run_scenario(sc, base, fast=True, mode='each', real_passes=None, on_test=Non
             o.sched_used = st.sched.pos
             o.stats = stats
     finally:
+        shutil.copyfile = orig_copyfile
         try:
             o.cwd_after = os.getcwd()
         except OSError:
